@@ -782,6 +782,14 @@ impl fmt::Debug for StreamingPayload {
 
 impl Drop for StreamingPayload {
     fn drop(&mut self) {
+        // publish packet could have been written while the handle was never used,
+        // payload is owed in that case as well
+        if let Some(rx) = self.rx.take()
+            && let Poll::Ready(Ok(())) =
+                rx.poll_recv(&mut Context::from_waker(Waker::noop()))
+        {
+            self.inprocess.set(true);
+        }
         if self.inprocess.get() && self.shared.is_streaming() {
             self.shared.streaming_dropped();
         }
